@@ -71,8 +71,8 @@ def subject(kind, shape, named=False, locked=False):
     return td
 
 
-def loop_reference(prog, kind, shape, in_dim, out_dim):
-    td = subject(kind, shape)
+def loop_reference(prog, kind, shape, in_dim, out_dim, named=False):
+    td = subject(kind, shape, named)
     n = shape[in_dim]
     outs = [progs.run_program(take(td, in_dim, j), prog) for j in range(n)]
     return torch.stack([o if isinstance(o, TensorDict) else o for o in outs], out_dim)
@@ -101,7 +101,7 @@ def check_programs(R):
         R.count(f"in_dim:{'neg' if in_dim < 0 else 'pos'}")
         for nm, _ in prog:
             R.count("prog-op:" + nm)
-        ref = call(lambda: progs.observe(loop_reference(prog, kind, shape, ind, out_dim)))
+        ref = call(lambda: progs.observe(loop_reference(prog, kind, shape, ind, out_dim, named)))
         if ref[0] != "ok":
             R.count("skipped:reference-raises")
             continue
@@ -340,5 +340,5 @@ def replay(body):
         shape = tuple(c["shape"])
         td = subject(c["container"], shape, c["named"], c["locked"])
         print("vmap:", call(lambda: progs.observe(torch.vmap(lambda x: progs.run_program(x, prog), in_dims=c["in_dim"], out_dims=c["out_dim"])(td))))
-        print("loop:", call(lambda: progs.observe(loop_reference(prog, c["container"], shape, c["in_dim"] % len(shape), c["out_dim"]))))
+        print("loop:", call(lambda: progs.observe(loop_reference(prog, c["container"], shape, c["in_dim"] % len(shape), c["out_dim"], c["named"]))))
     return 0
